@@ -650,6 +650,21 @@ def run(c: Check):
                         "path: the two instances hold the same object, sealed by the first submit - the generated path "
                         "seen by the second job is the first job's (two jobs, one path; not private to the job)",
                         dict(scenario="vpk_c17.probe: TDefault2(y=1).submit(); TDefault2(y=2).submit()", observed=d2))
+    # two graphs with the same identifier (hence the same job directory) that differ by something the identifier
+    # ignores: the generated paths must not differ (reproducibility clause) - directed probes, open findings
+    for name, key, what in (
+            ("ignored_parameter", "C17:paths-depend-on-ignored-parameter",
+             "T(m=s, p=s) with m a Meta parameter declared before p, and T(p=<equal fresh s>): same identifier and job "
+             "directory, but the shared configuration is generated under out/m in one and out/p in the other"),
+            ("pretask_attachment", "C17:paths-depend-on-pretask-attachment",
+             "T(a=A.add_pretasks(q), b=B) and T(a=A, b=B.add_pretasks(q)): the full identifier hashes the set of pre-tasks "
+             "of the whole graph - same identifier and job directory - but the pre-task's generated path is under out/a "
+             "in one and out/b in the other")):
+        pr = probes.get(name) or dict(error="probe missing")
+        if "error" in pr:
+            c.obligations.append(dict(name="probe:" + name, kind="tie", ok=False, detail=pr["error"]))
+        elif pr["first_job"] == pr["second_job"] and pr["first_path"] != pr["second_path"]:
+            c.violation(key, what, dict(scenario="harness/vpk_c17/probe.py, drive_c17.probes()", observed=pr))
     pd = probes["config_default"]
     if "error" in pd:
         c.obligations.append(dict(name="probe:config-valued-default", kind="tie", ok=False, detail=pd["error"]))
